@@ -5,8 +5,10 @@ import (
 	"flag"
 	"fmt"
 	"os"
+	"runtime"
 	"sort"
 	"strconv"
+	"time"
 
 	"verif/checks"
 	"verif/ev"
@@ -50,6 +52,26 @@ func main() {
 		os.Exit(2)
 	}
 	c := ev.New(id, *tier, *seed, ck.Level)
+	// memory watchdog: the sandbox has no memory limit, and a changed tree may loop or allocate without bound inside a
+	// single library call (nothing the workload could recover from). What the unchanged tree needs stays below a few GB
+	// per check; far beyond that the run is ended with a verdict instead of waiting for the kernel's OOM killer.
+	go func() {
+		limit := uint64(28) << 30
+		if v, err := strconv.ParseUint(os.Getenv("VERIF_MEM_LIMIT_GB"), 10, 64); err == nil && v > 0 {
+			limit = v << 30
+		}
+		var ms runtime.MemStats
+		for {
+			time.Sleep(2 * time.Second)
+			runtime.ReadMemStats(&ms)
+			if ms.Sys > limit {
+				c.Violation("library-call-allocates-without-bound", map[string]interface{}{"go_runtime_sys_bytes": ms.Sys, "heap_in_use": ms.HeapInuse, "limit_bytes": limit,
+					"why": "the process grew far beyond anything the workload of this check allocates on the unchanged tree; the run was ended by the harness' memory watchdog"})
+				fmt.Printf("SUMMARY property=%s tier=%s seed=%d ended by the memory watchdog\n", id, *tier, *seed)
+				os.Exit(1)
+			}
+		}
+	}()
 	ck.Run(c)
 	os.Exit(c.Finish())
 }
